@@ -979,6 +979,17 @@ func (vc *VC) evalCall(e *Expr, env *SpecEnv) SV {
 			return mathInt("0")
 		}
 		return SV{t: vc.unbox(x.t, t), typ: t}
+	case "strof":
+		// strof(b): string(b) for a heap-mode byte slice - a function of the bytes in the slice's window
+		x := ev(0)
+		if x.typ == nil || vc.sortOf(x.typ) != "Slice" {
+			vc.errorf("spec: strof(b) needs a heap-mode byte slice")
+			return SV{t: vc.strLit(""), srt: "Str"}
+		}
+		vc.needSort("Str")
+		vc.declRaw("fn:str_of", "(declare-fun str_of ((Array Int Int) Int Int) Str)")
+		h := vc.arrHeap(types.Typ[types.Uint8])
+		return SV{t: app("str_of", sel(vc.heapGet(env.cur, h), app("s_ref", x.t)), app("s_off", x.t), app("s_len", x.t)), srt: "Str"}
 	case "pointee":
 		// pointee(x): the cell an interface-wrapped pointer (x = interface{}(&v)) points to
 		x := ev(0)
